@@ -111,6 +111,14 @@ namespace nmtools::array
                     }
                 }
             }
+            else if constexpr (meta::is_clipped_integer_v<index_type>) {
+                // bounded-length shape of clipped extents (what cast(kind::ndarray_ls_*) makes of a bounded-dim source)
+                for (size_t i=0; i<(size_t)len(sizes_); i++) {
+                    if ((size_t)at(sizes_,i) > (size_t)index_type::max) {
+                        return false;
+                    }
+                }
+            }
             if constexpr (meta::is_resizable_v<shape_type>) {
                 shape_.resize(new_dim);
             }
